@@ -3489,6 +3489,28 @@ impl<T: IntoRoute<T>> Router<T> {
     //@| }
 }
 //@@ unrename SchemeMatcher
+// ---- deriving an updated router from a shared one (C02 "clones are isolated", C19 project-level analyses): RuleChangeSet::update_existing_router
+// clones the shared router and applies the change set to the CLONE — added as added, updated as updated. api::Rule is opaque here (its conversion
+// to a route is the named function spec_route); the derived Clone of Router is ASSUMED to yield an equal value (the shared router itself cannot
+// change: it is only read through the Arc).
+#[verifier::external_body] pub struct Rule { x: u8 }
+impl IntoRoute<Rule> for Rule {
+    uninterp spec fn spec_route(self, config: RouterConfig) -> Route<Rule>;
+    #[verifier::external_body] fn into_route(self, config: &RouterConfig) -> (r: Route<Rule>) { unimplemented!() }
+}
+impl<T> Clone for Router<T> { #[verifier::external_body] fn clone(&self) -> (r: Self) ensures r == *self { unimplemented!() } }
+pub assume_specification<T: ?Sized, A: std::alloc::Allocator> [<Arc<T, A> as std::convert::AsRef<T>>::as_ref] (a: &Arc<T, A>) -> (r: &T) ensures r == &**a;
+//@@ item src/api/rules_message.rs :: struct RuleChangeSet
+impl RuleChangeSet {
+    //@@ fn src/api/rules_message.rs :: impl RuleChangeSet / fn update_existing_router -> r
+    //@| requires existing_router.wf(), existing_router.matcher.cnt() + self.updated@.len() + self.added@.len() < usize::MAX,
+    //@|     forall|i: int, j: int| 0 <= i < j < self.updated@.len() + self.added@.len() ==> rid(#[trigger] cs_routes(self.updated@, self.added@, *existing_router.config)[i]) != rid(#[trigger] cs_routes(self.updated@, self.added@, *existing_router.config)[j]),
+    //@|     forall|i: int, x: RouteRef<Rule>| 0 <= i < self.added@.len() && #[trigger] existing_router.live(x) && rid(*x) == rid(#[trigger] self.added@[i].spec_route(*existing_router.config)) ==> ids_has(self.deleted@, rid(*x)),
+    //@| ensures r.wf(), r.config == existing_router.config,
+    //@|     forall|y: RouteRef<Rule>| survives(*existing_router, self.deleted@, self.updated@, y) ==> #[trigger] r.live(y),
+    //@|     forall|y: RouteRef<Rule>| #[trigger] r.live(y) ==> survives(*existing_router, self.deleted@, self.updated@, y) || exists|i: int| 0 <= i < self.updated@.len() + self.added@.len() && *y == #[trigger] cs_routes(self.updated@, self.added@, *existing_router.config)[i],
+    //@|     forall|i: int| 0 <= i < self.updated@.len() + self.added@.len() ==> has_route(r, #[trigger] cs_routes(self.updated@, self.added@, *existing_router.config)[i]),
+}
 
 //@@ strlits
 } // verus!
